@@ -898,6 +898,19 @@ def report(ctx, plan, o, case, real, impl, m, mo_show, label):
             ctx.disagree(KEY_META, f"{culprit.ident}: declared metadata lost; every run of the command fails: {impl}", _replay(case), impl=impl,
                          model=mo_show, spec_violated=True, site="GalliaBaseModel (pydantic >= 2.12 field collection)")
             return
+    # the run fails on *another* option of the base line (a value from the valid pools is refused there): one finding
+    # for that option, not one per option that happens to be varied next to it
+    if real["r"] == "exit":
+        for src, named_opt, _ in real["errs"]:
+            words = named_opt.replace(",", " ").split()
+            other = next((x for x in plan.visible if x.name != o.name and (opt_flag(x) in words or x.name in words)), None)
+            if other is not None and src != "missing":
+                given = plan.base.get(other.name)
+                ctx.disagree(f"base-line-refused:{decl_class(other)}.{other.name}:{other.kind.label()}:naming-{src}",
+                             f"{other.ident}: the value {given} (valid for {other.kind.label()}) is refused: {real.get('text', '')[-160:].strip()}",
+                             _replay(case), impl=impl + [real.get("text", "")[-200:]], model=f"{other.name} accepted", spec_violated=True,
+                             site="cli.gallia.create_parser / pydantic_argparse")
+                return
     # which provider's value did the implementation end up with?
     got = "?"
     violated = True
@@ -1273,7 +1286,14 @@ def check_discovery(ctx, rng):
                 return user_toml[bool(xs)]
             return os.path.join(extra[int(tok[6:])], "gallia.toml")
 
-        for (impl, dirs, w), mo in zip(meta, ctx.lean(lines)):
+        def weight(item):
+            (_, _, (gits, tomls, xs, xt, ht, ev, ex)), _ = item
+            return (sum(gits) + sum(tomls) + xs + xt + ht + (ev != "u") + (0 if ex == "-" else len(ex) + ex.count("1")), gits, tomls, xs, xt, ht, ev, ex)
+
+        n_bad = {True: 0, False: 0}
+        # smallest worlds first: the first disagreement reported is a minimal one; a different file first, then a different
+        # directory list that happens to find the same file
+        for (impl, dirs, w), mo in sorted(zip(meta, ctx.lean(lines)), key=weight):
             parts = mo.split()
             cands = parts[-1].split(",")
             res = parts[0] if parts[0] != "file" else "file " + place(parts[1], w[2])
@@ -1282,15 +1302,16 @@ def check_discovery(ctx, rng):
             ctx.kind("discovery:" + (parts[1].split(":")[0] if parts[0] == "file" else parts[0]))
             ctx.nontrivial(("disc",) + tuple(map(str, w)))
             ctx.traces_validated += 1
-            if impl != res or dirs != mdirs:
+            if (impl != res or dirs != mdirs) and n_bad[impl != res] < 3:
+                n_bad[impl != res] += 1
                 gits, tomls, xs, xt, ht, ev, ex = w
-                ctx.disagree(f"discovery:git={''.join(map(str, gits))}:toml={''.join(map(str, tomls))}:xdg={xs}{xt}{ht}:env={ev}:extra={ex}",
+                ctx.disagree(f"discovery{'' if impl != res else '-dirs'}:git={''.join(map(str, gits))}:toml={''.join(map(str, tomls))}:xdg={xs}{xt}{ht}:env={ev}:extra={ex}",
                              f"search_config() with .git in {gits}, gallia.toml in {tomls} (cwd, parent, grandparent), XDG_CONFIG_HOME {'set' if xs else 'unset'} "
                              f"(xdg file {xt}, ~/.config file {ht}), GALLIA_CONFIG {ev}, extra {ex}: implementation {impl.replace(root, '')} dirs "
                              f"{[d.replace(root, '') for d in dirs]}, model {res.replace(root, '')} dirs {[d.replace(root, '') for d in mdirs]}",
                              {"git": gits, "toml": tomls, "xdg_set": xs, "xdg_toml": xt, "home_toml": ht, "env": ev, "extra": ex},
                              impl=[impl.replace(root, ""), [d.replace(root, "") for d in dirs]], model=[res.replace(root, ""), [d.replace(root, "") for d in mdirs]],
-                             spec_violated=True, site="config.search_config / get_config_dirs / get_git_root")
+                             spec_violated=impl != res, site="config.search_config / get_config_dirs / get_git_root")
         ctx.exhaustive_parts.append(f"config file discovery on a real directory tree (cwd / parent / grandparent, fake .git directories, HOME, "
                                     f"XDG_CONFIG_HOME, GALLIA_CONFIG, extra_paths): {len(lines)} worlds" +
                                     ("" if ctx.quick and not ctx.widened else " = every combination"))
@@ -1334,7 +1355,12 @@ def _rerun(cmd, cfg, tmp, tag):
         await h.connect()
         await h.insert_run_meta(script=target.run_meta.command, config=cfg, start_time=datetime.now(UTC).astimezone(), path=None)
         rid = h.meta
+        cur = await h.connection.execute("SELECT script, config FROM run_meta WHERE id = ?", (rid,))
+        row = await cur.fetchone()
+        out["stored_db"] = (row[0], json.loads(row[1]))
         await h.disconnect()
+        m = json.loads(meta_path.read_text())
+        out["stored_file"] = (m.get("command"), m.get("config"))
         for how in ("file", "db"):
             seen.clear()
             r = Rerunner(RerunnerConfig(file=meta_path) if how == "file" else RerunnerConfig(id=rid, db=db_path))
@@ -1423,10 +1449,21 @@ def check_rerun(ctx, plans, rng):
             ctx.traces_validated += 2
             ctx.kind("rerun:" + " ".join(plan.path))
             ctx.nontrivial(("rerun", plan.path, cfg.model_dump_json()))
-            case = {"cmd": list(plan.path), "config": json.loads(cfg.model_dump_json()), "given": varied}
+            full = json.loads(cfg.model_dump_json())
+            case = {"cmd": list(plan.path), "config": full, "given": varied}
+            want_cmd = f"{plan.cmd.__module__}.{plan.cmd.__name__}"
             for how in ("file", "db"):
                 g = got[how]
                 src = "META.json" if how == "file" else "run_meta in the database"
+                # what is stored is the whole configuration (the model's `store`: every field under its name) and the command
+                sc, sj = got["stored_" + how]
+                if sc != want_cmd or not isinstance(sj, dict) or set(sj) != set(type(cfg).model_fields) or sj != full:
+                    miss = sorted(set(type(cfg).model_fields) - set(sj or {}))
+                    diff = sorted(k for k in (sj or {}) if k in full and sj[k] != full[k])
+                    ctx.disagree(f"stored-config:{how}:{'command' if sc != want_cmd else 'lacks-fields' if miss else 'differs'}",
+                                 f"{src} of `{' '.join(plan.path)}` does not hold the configuration of the run: command {sc!r}, fields missing "
+                                 f"{miss[:6]}, fields stored differently {diff[:6]}", case, impl={"command": sc, "config": sj}, model=full,
+                                 spec_violated=True, site="BaseCommand.__init__ / DBHandler.insert_run_meta")
                 if isinstance(g, str):
                     ctx.disagree(f"rerun-raises:{how}:{' '.join(plan.path)}", f"gallia script rerun from {src} of `{' '.join(plan.path)}`: {g}", case,
                                  impl=g, model="equal configuration", spec_violated=True, site="Rerunner.main")
